@@ -41,6 +41,8 @@ class BranchTrip(object):
                 cm.update(meths)
                 o.__dict__['_methods'] = cm
                 o.__dict__['_instance_methods'] = meths
+                o.__dict__['_isclass'] = True
+                o.__dict__['_meta_methods'] = set(pm.methods('ppc_mnemo_metaclass')) - set(meths)
                 o.__dict__['_classattrs'] = attrs
                 for a, v in attrs.items():
                     setattr(o, a, v)
